@@ -272,6 +272,8 @@ pub enum Context {
     IfElseElseBlock,
     IfElseElseStmt,
     IfElseBothStmt,
+    /// `if (c) <inner> else <statement>`: both bodies single statements, `inner` the first
+    IfElseThenBothStmt,
     WhileBlock,
     WhileStmt,
     ForRangeBlock,
@@ -283,7 +285,7 @@ pub enum Context {
     DefBody,
 }
 
-pub const CONTEXTS: [Context; 16] = [
+pub const CONTEXTS: [Context; 17] = [
     Context::IfThenBlock,
     Context::IfThenStmt,
     Context::IfElseThenBlock,
@@ -291,6 +293,7 @@ pub const CONTEXTS: [Context; 16] = [
     Context::IfElseElseBlock,
     Context::IfElseElseStmt,
     Context::IfElseBothStmt,
+    Context::IfElseThenBothStmt,
     Context::WhileBlock,
     Context::WhileStmt,
     Context::ForRangeBlock,
@@ -303,7 +306,7 @@ pub const CONTEXTS: [Context; 16] = [
 ];
 
 /// Contexts that differ in accessor logic (reduced set for deep spines).
-pub const CONTEXTS_REDUCED: [Context; 6] = [Context::IfThenStmt, Context::IfElseThenStmt, Context::IfElseElseBlock, Context::WhileStmt, Context::ForSetStmt, Context::Case];
+pub const CONTEXTS_REDUCED: [Context; 7] = [Context::IfThenStmt, Context::IfElseThenStmt, Context::IfElseThenBothStmt, Context::IfElseElseBlock, Context::WhileStmt, Context::ForSetStmt, Context::Case];
 
 fn filler(n: u32) -> Stmt {
     // a default sibling statement, distinguishable by its literal
@@ -326,6 +329,7 @@ impl Context {
             IfElseElseBlock => Stmt::If { cond, then: Body::single(filler(4)), els: Some(Body::block(vec![filler(5), inner])) },
             IfElseElseStmt => Stmt::If { cond, then: Body::block(vec![filler(4)]), els: Some(Body::single(inner)) },
             IfElseBothStmt => Stmt::If { cond, then: Body::single(filler(6)), els: Some(Body::single(inner)) },
+            IfElseThenBothStmt => Stmt::If { cond, then: Body::single(inner), els: Some(Body::single(filler(13))) },
             WhileBlock => Stmt::While { cond, body: Body::block(vec![inner, filler(7)]) },
             WhileStmt => Stmt::While { cond, body: Body::single(inner) },
             ForRangeBlock => Stmt::For { ty: Ty::plain("int"), var: format!("i{}", uniq), iter: ForIter::Range(int(0), Some(int(2)), int(8)), body: Body::block(vec![inner]) },
